@@ -357,7 +357,11 @@ impl Curve2 {
         if self.is_closed && (is_first || is_last) {
             let d0 = self.dir_of_edge(0).into_inner();
             let d1 = self.dir_of_edge(v.len() - 2).into_inner();
-            // TODO: this will fail on a curve that doubles back, use angles?
+            if (d0 + d1).norm() < 1.0e-12 {
+                // The curve doubles back exactly on itself at the seam, so the summed direction
+                // vanishes and the direction of the leaving edge is used instead
+                return self.dir_of_edge(0);
+            }
             Unit::new_normalize(d0 + d1)
         } else if is_first {
             self.dir_of_edge(0)
@@ -366,7 +370,11 @@ impl Curve2 {
         } else {
             let d0 = self.dir_of_edge(index - 1).into_inner();
             let d1 = self.dir_of_edge(index).into_inner();
-            // TODO: this will fail on a curve that doubles back, use angles?
+            if (d0 + d1).norm() < 1.0e-12 {
+                // The curve doubles back exactly on itself at this vertex, so the summed direction
+                // vanishes and the direction of the leaving edge is used instead
+                return self.dir_of_edge(index);
+            }
             Unit::new_normalize(d0 + d1)
         }
     }
